@@ -315,6 +315,7 @@ func c06Exec(cfg c06Cfg, path []int, closing bool) (menu int, v *fw.Violation, x
 }
 
 func runC06(c *fw.Ctx) {
+	runSpxFamily(c, "C06")
 	thorough := c.Tier == "thorough"
 	cfgs := []c06Cfg{
 		{0, []int{3}, []bool{false}}, {1, []int{6}, []bool{true}}, {5, []int{6, 3}, []bool{false, false}}, {1, []int{3, 1}, []bool{true, false}},
